@@ -36,7 +36,8 @@ class Cfg:
         self.trusted = kw["trusted"]
         self.assumptions = kw["assumptions"]
         self.variants = kw.get("variants", [dict()])  # e.g. build-tag variants; each dict(tags=, env=, overlay=)
-        self.timeout = kw.get("timeout", 3000)
+        self.timeout = kw.get("timeout", 900)
+        self.search_n = kw.get("search_n", self.quick_n * 10)
         self.design_ref = kw.get("design_ref", "")
         self.technique = kw.get("technique", "")
         self.level_text = kw.get("level_text", "")
@@ -79,6 +80,13 @@ def spec_admits(sout, iout):
             bad = set(x for x in excl[1:].split(",") if x)
             m = re.fullmatch(r"ok ([0-9.]+):(\d+)", iout)
             if m and m.group(1) == ip and int(lo) <= int(m.group(2)) <= int(hi) and m.group(2) not in bad:
+                return True
+        if " g*" in alt or " g!" in alt:
+            # token pattern: `g*` matches any channel generation gN, `g!k` any generation other than k
+            at, it = alt.split(" "), iout.split(" ")
+            if len(at) == len(it) and all(
+                    (a == b) or (a == "g*" and re.fullmatch(r"g\d+", b)) or
+                    (a.startswith("g!") and re.fullmatch(r"g\d+", b) and b[1:] != a[2:]) for a, b in zip(at, it)):
                 return True
         if alt.startswith("anyip:"):
             # anyip:<net>/<bits>:!ip1,ip2  = `ok <ip>` for any address of the subnet not in the excluded list
@@ -375,10 +383,10 @@ def _run_check(cfg, tier, seed, work, t0):
         searched = True
         log("[%s] obligation or correspondence broken without a concrete failing input yet: searching (thorough budget)" % prop)
         for k, variant in enumerate(cfg.variants):
-            for s2 in (seed + 1, seed + 2):
+            for s2 in (seed + 1,):
                 if oc.spec_viol:
                     break
-                runner.run_batch(work.path("s%d-%d" % (k, s2)), max(cfg.quick_n * 10, min(cfg.thorough_n, cfg.quick_n * 25)), variant, oc, seed=s2)
+                runner.run_batch(work.path("s%d-%d" % (k, s2)), cfg.search_n, variant, oc, seed=s2)
 
     # ---- 5: verdict
     known = [k for k in core.load_known() if k.get("property") == prop and k.get("status") == "open"]
